@@ -40,7 +40,8 @@ META = dict(
          "reachable through the copy's token lists is a new object with new list and dict cell, not in the original's "
          "token tree — deepcopy_tokens_fresh_full: not reachable from the original by any route —, and as_list() of "
          "the copy = as_list() of the original to every depth; deepcopy_views: BOTH views, nested, are the original's), deepcopy_frame_tokens / deepcopy_frame_tokens_many (own "
-         "mutations of any groups of the copy's token tree never change the original's as_list(), and vice versa), "
+         "mutations of any groups of the copy's token tree never change the original's as_list(), and vice versa; deepcopy_frame_views: nor the view of any "
+         "well-formed object of the original heap, and vice versa), "
          "deepcopy_names_shared + deepcopy_named_alias_any_depth (registered finding deepcopy_named_group_aliased, "
          "general form: at every depth the copy of a group keeps the very occurrence lists of the original, so every "
          "named nested value of the copy IS the original's object; a concrete heap for every depth). copy.deepcopy / "
@@ -103,6 +104,7 @@ THEOREMS = [
     "PP.PRHeap.deepcopy_tokens_fresh",
     "PP.PRHeap.deepcopy_frame_tokens",
     "PP.PRHeap.deepcopy_frame_tokens_many",
+    "PP.PRHeap.deepcopy_frame_views",
     "PP.PRHeap.deepcopy_names_shared",
     "PP.PRHeap.deepcopy_named_alias_any_depth",
     "PP.PRHeap.deepcopy_tokens_fresh_full",
